@@ -298,7 +298,7 @@ def main():
 
     chk.obligation("corr:runtime-model-vs-native", "correspondence", chk.corr["disagreements"] == 0,
                    "%d compared, %d disagreements" % (chk.corr["compared"], chk.corr["disagreements"]))
-    if (not proofs_ok or chk.corr["disagreements"]) and not found_failing:
+    if (not proofs_ok or chk.corr["disagreements"]) and not chk.has_failing_input():
         what = []
         if errors:
             what.append("translator: %s" % errors)
